@@ -438,6 +438,10 @@ func TestC16(t *testing.T) {
 					OrderedItems: ap.ItemCollection{ap.IRI("https://example.com/actors/x"), &ap.Actor{ID: "https://example.com/actors/y", Type: ap.PersonType}}}
 			case 6:
 				return &ap.Collection{ID: "https://example.com/groups/g/members", Type: ap.CollectionType}
+			case 7:
+				return ap.IRI("https://example.com/actors/a?page=1") // another identity than actors/a: only the query differs
+			case 8:
+				return &ap.Object{ID: "https://example.com/actors/a?page=1&page=2", Type: ap.NoteType}
 			}
 			return nil
 		}
@@ -455,6 +459,27 @@ func TestC16(t *testing.T) {
 			}
 		}
 		build(nil)
+		// near identities: actors/a as IRI and embedded, and two other identities whose ids differ from it only in the query
+		near := []int{0, 1, 7, 8}
+		var buildNear func(cur []int)
+		buildNear = func(cur []int) {
+			if len(cur) > 0 {
+				dup := false
+				for _, k := range cur {
+					dup = dup || k >= 7
+				}
+				if dup {
+					combos = append(combos, append([]int{}, cur...))
+				}
+			}
+			if len(cur) == 3 {
+				return
+			}
+			for _, k := range near {
+				buildNear(append(cur, k))
+			}
+		}
+		buildNear(nil)
 		total, done := 0, 0
 		for _, fn := range append(append([]string{}, c16Lists...), "AttributedTo") {
 			for _, tg := range []target{targets[0], targets[4]} {
@@ -463,7 +488,7 @@ func TestC16(t *testing.T) {
 					if fn == "AttributedTo" {
 						skip := false
 						for _, k := range cb {
-							if k >= 5 {
+							if k == 5 || k == 6 {
 								skip = true // collections in attributedTo: the statement speaks of non-collection objects there
 							}
 						}
